@@ -11,6 +11,8 @@ class AnnotateMinIriStrategy(AbstractMinIriStrategy):
         self._min_iris_dict = min_iris_dict
 
     def annotate_shape_iri(self, shape):
+        if self._min_iris_dict.shape_min_iri(shape.class_uri) is None:
+            return  # An earlier shex_graph() call on this Shaper already decided: no suitable stem for this shape
         self._min_iris_dict.set_shape_min_iri(shape_id=shape.class_uri,
                                               min_iri=self._determine_suitable_iri_pattern
                                                   (
